@@ -112,11 +112,14 @@ def node_params(draw, k, t, nodes, me_parent, maxdepth):
                 fs.append("pair")
         if k == "map":
             fs.append("poly")       # map(f, *args, **kwargs): extra arguments handed to f
+            fs.append("viadict")    # map(wrap into a dict).pluck(tuple key | string key)
         f = draw(st.sampled_from(fs))
         p["f"] = f
         ot = {"wrap": ["H", [t]], "pair": ["H", ["E", "E"]]}.get(f, "E" if f != "wrap" else None)
         if f in ("inc", "dbl", "neg", "size", "tsum", "poly"):
             ot = "E"
+        if f == "viadict":
+            ot = t
         if f == "poly":
             p["args"] = draw(st.lists(st.integers(0, 5), max_size=2))
             p["kw"] = draw(st.sampled_from([{}, {}, {"k": 1}, {"k": 4, "j": 2}]))
@@ -369,7 +372,12 @@ def build(spec, log, asynchronous, consumer_modes=None, faults=None, wrap_fn=Non
             else:
                 s = Stream(asynchronous=True) if asynchronous else Stream()
         elif k == "map":
-            s = ups[0].map(fn(i, p["f"]), *p.get("args", []), **p.get("kw", {}))
+            if p["f"] == "viadict":
+                from .elements import todict
+                s = ups[0].map(lambda x, _f=fn(i, "viadict"): todict(_f(x))).pluck(
+                    (0, 1) if i % 2 else "v")
+            else:
+                s = ups[0].map(fn(i, p["f"]), *p.get("args", []), **p.get("kw", {}))
         elif k == "starmap":
             s = ups[0].starmap(fn(i, p["f"]), *p.get("args", []), **p.get("kw", {}))
         elif k == "filter":
